@@ -65,25 +65,42 @@ def gen_cases(ctx, maxops, lines_out, par=False, split=None):
 MUX_KINDS = (("xmux", 1), ("xmux", 2), ("h2", 1), ("bind", 2))
 
 
-def mux_cfg(kind, nidx, maxops, trace=False, reqs="{0, 2}"):
+def mux_cfg(kind, nidx, maxops, trace=False, reqs="{0, 2}", split=False):
     if trace:
-        return ("CONSTANTS\n  Kind = \"%s\"\n  NConns = 12\n  NStreams = 12\n  NIdx = %d\n  MaxReqs = {0}\n  MaxOps = 0\n  Defects = {}\n"
+        return ("CONSTANTS\n  Kind = \"%s\"\n  NConns = 12\n  NStreams = 12\n  NIdx = %d\n  MaxReqs = {0}\n  MaxOps = 0\n  SplitNew = TRUE\n  Defects = {}\n"
                 "SPECIFICATION TraceSpec\nPOSTCONDITION Accepted\nCHECK_DEADLOCK FALSE\n") % (kind, nidx)
-    return ("CONSTANTS\n  Kind = \"%s\"\n  NConns = 8\n  NStreams = 8\n  NIdx = %d\n  MaxReqs = %s\n  MaxOps = %d\n  Defects = {}\n"
-            "SPECIFICATION Spec\nINVARIANTS EmitCase\nCHECK_DEADLOCK FALSE\n") % (kind, nidx, reqs, maxops)
+    return ("CONSTANTS\n  Kind = \"%s\"\n  NConns = 8\n  NStreams = 8\n  NIdx = %d\n  MaxReqs = %s\n  MaxOps = %d\n  SplitNew = %s\n  Defects = {}\n"
+            "SPECIFICATION Spec\nINVARIANTS EmitCase\nCHECK_DEADLOCK FALSE\n") % (kind, nidx, reqs, maxops, "TRUE" if split else "FALSE")
 
 
-def gen_mux_cases(ctx, kind, nidx, maxops, reqs):
-    raw = os.path.join(ctx.tmp, "mraw_%s_%d_%d.jsonl" % (kind, nidx, maxops))
-    r = vlib.run_tlc(ctx, "pool", "MuxPool", "MuxPool_gen.cfg", workers=1, cases_to=raw,
-                     cfg_text=mux_cfg(kind, nidx, maxops, reqs=reqs), timeout=1500)
-    ctx.add_tlc(r)
+def send_after_something(c):
+    """a request taken in its two steps with at least one other operation between the lease and a send"""
+    ops = c["ops"]
+    for i, o in enumerate(ops):
+        if o["op"] == "lease" and any(x["op"] == "send" for x in ops[i + 2:]):
+            return True
+    return False
+
+
+def gen_mux_cases(ctx, kind, nidx, maxops, reqs, split=None):
+    """split: None = requests in one step ("new") only; "send" = the histories in which some request is taken in the
+       code's two steps (a lease and a send); "between" = of those, the ones with an operation between a lease and a send
+       (the observation after every operation is validated, so these cover every shorter history that leases a stream).
+       Returns (histories, TLC result); thread-safe (the caller registers the TLC run)."""
+    raw = os.path.join(ctx.tmp, "mraw_%s_%d_%d_%s.jsonl" % (kind, nidx, maxops, split))
+    r = vlib.run_tlc(ctx, "pool", "MuxPool", "MuxPool_gen_%s_%d_%d_%s.cfg" % (kind, nidx, maxops, split), workers=1, cases_to=raw,
+                     cfg_text=mux_cfg(kind, nidx, maxops, reqs=reqs, split=bool(split)), timeout=1500)
     out = []
     for ln in sorted(set(open(raw).read().splitlines())):
         c = json.loads(ln)
+        if split:
+            if not any(o["op"] == "lease" for o in c["ops"]) or not any(o["op"] == "send" for o in c["ops"]):
+                continue
+            if split == "between" and not send_after_something(c):
+                continue
         c["kind"], c["nidx"] = kind, nidx
         out.append(json.dumps(c, sort_keys=True))
-    return out
+    return out, r
 
 
 def mismatches(txt):
@@ -107,10 +124,16 @@ def run(ctx):
         if rr["ok"] or not rr["violated"]:
             raise vlib.Inconclusive("PingPongPool does not reject defect " + d)
 
-    for cfg in (("MuxPool_xmux.cfg", "MuxPool_xmux2.cfg", "MuxPool_h2.cfg", "MuxPool_bind.cfg") if q else
-                ("MuxPool_xmux_thorough.cfg", "MuxPool_xmux2.cfg", "MuxPool_h2_thorough.cfg", "MuxPool_bind_thorough.cfg")):
-        ctx.add_tlc(vlib.run_tlc(ctx, "pool", "MuxPool", cfg, timeout=1500))
-    for d in ("DestroyNotCounted", "GoAwayKeepsAccepting", "DeleteClientInGoAway", "CountOnOneway"):
+    # MuxPool_split_*: the same pools with every request also taken in the code's two steps (lease = NewStream hands out
+    # a sender, send = the caller writes the request) and every other operation in between
+    mux_cfgs = (("MuxPool_xmux.cfg", "MuxPool_xmux2.cfg", "MuxPool_h2.cfg", "MuxPool_bind.cfg",
+                 "MuxPool_split_xmux.cfg", "MuxPool_split_xmux2.cfg", "MuxPool_split_h2.cfg", "MuxPool_split_bind.cfg") if q else
+                ("MuxPool_xmux_thorough.cfg", "MuxPool_xmux2.cfg", "MuxPool_h2_thorough.cfg", "MuxPool_bind_thorough.cfg",
+                 "MuxPool_split_xmux.cfg", "MuxPool_split_xmux2_thorough.cfg", "MuxPool_split_h2.cfg", "MuxPool_split_bind_thorough.cfg"))
+    with cf.ThreadPoolExecutor(max_workers=4) as ex:
+        for r in ex.map(lambda cfg: vlib.run_tlc(ctx, "pool", "MuxPool", cfg, workers=max(2, vlib.NCPU // 4), timeout=1500), mux_cfgs):
+            ctx.add_tlc(r)
+    for d in ("DestroyNotCounted", "GoAwayKeepsAccepting", "DeleteClientInGoAway", "CountOnOneway", "OnewayReleasesOnFailure"):
         rr = vlib.run_tlc(ctx, "pool", "MuxPool", "MuxPool_defect_%s.cfg" % d, expect_ok=False)
         if rr["ok"] or not rr["violated"]:
             raise vlib.Inconclusive("MuxPool does not reject defect " + d)
@@ -147,23 +170,46 @@ def run(ctx):
     mcap = 2500 if q else 20000
     mux_sampled = False
     mux_files = {}
-    n_mux = 0
+    n_mux = n_split = 0
+    reqs = "{0, 2}" if q else "{0, 1, 2}"
+    # requests in two steps (lease ... send): every history of length sdepth that leases a stream and sends a request, and of
+    # the histories one operation longer those with something between a lease and a send (VERIF_SEED sample when capped)
+    sdepth = 3 if q else 4
+    scap = 1500 if q else 10000
+    gens = {}
+    with cf.ThreadPoolExecutor(max_workers=max(2, vlib.NCPU // 2)) as ex:
+        for kind, nidx in MUX_KINDS:
+            gens[(kind, nidx, "base")] = ex.submit(gen_mux_cases, ctx, kind, nidx, mdepth, reqs)
+            gens[(kind, nidx, "deep")] = ex.submit(gen_mux_cases, ctx, kind, nidx, mdepth + 1, reqs)
+            gens[(kind, nidx, "split")] = ex.submit(gen_mux_cases, ctx, kind, nidx, sdepth, reqs, "send")
+            gens[(kind, nidx, "split+")] = ex.submit(gen_mux_cases, ctx, kind, nidx, sdepth + 1, reqs, "between")
+    for k in sorted(gens):
+        ctx.add_tlc(gens[k].result()[1])
     for kind, nidx in MUX_KINDS:
-        reqs = "{0, 2}" if q else "{0, 1, 2}"
-        lines = gen_mux_cases(ctx, kind, nidx, mdepth, reqs)
-        deep = gen_mux_cases(ctx, kind, nidx, mdepth + 1, reqs)
+        lines = gens[(kind, nidx, "base")].result()[0]
+        deep = gens[(kind, nidx, "deep")].result()[0]
         if len(deep) > mcap:
             deep = rng.sample(deep, mcap)
             mux_sampled = True
         lines += deep
+        sp = gens[(kind, nidx, "split")].result()[0]
+        sp2 = gens[(kind, nidx, "split+")].result()[0]
+        if len(sp2) > scap:
+            sp2 = rng.sample(sp2, scap)
+            mux_sampled = True
+        if not sp or not sp2:
+            raise vlib.Inconclusive("no two-step (lease/send) histories for %s/%d" % (kind, nidx))
+        n_split += len(sp) + len(sp2)
+        lines += sp + sp2
         rng.shuffle(lines)
         n_mux += len(lines)
         pth = os.path.join(ctx.tmp, "mux-%s-%d.jsonl" % (kind, nidx))
         with open(pth, "w") as fo:
             fo.write("\n".join(lines) + "\n")
         mux_files[(kind, nidx)] = pth
-    vlib.log("[c09] multiplexed pools: %d histories (depth %d all, depth %d %s) over %s" % (
-        n_mux, mdepth, mdepth + 1, "sampled" if mux_sampled else "all", ", ".join("%s/%d" % k for k in MUX_KINDS)))
+    vlib.log("[c09] multiplexed pools: %d histories (depth %d all, depth %d %s; %d of them with a request in two steps, depth %d with lease and send + depth %d with "
+             "an operation between lease and send) over %s" % (
+        n_mux, mdepth, mdepth + 1, "sampled" if mux_sampled else "all", n_split, sdepth, sdepth + 1, ", ".join("%s/%d" % k for k in MUX_KINDS)))
 
     # 3. real pools
     binary = vlib.go_build("c09")
@@ -236,6 +282,17 @@ def run(ctx):
     ctx.cov["evaluations"] = nops + naudit
     ctx.cov["distinct_nontrivial"] = len(all_lines) * len(PROTOS) + n_mux
     ctx.cov["mux_histories"] = n_mux
+    ctx.cov["mux_two_step_histories"] = n_split
+    n_sendfail = {}
+    for j in jobs:
+        if j[0] == "mux":
+            for e in vlib.read_jsonl(j[2]):
+                if e.get("op") == "send" and e.get("res") == "sendfail":
+                    k = j[1] + (":oneway" if e.get("oneway") else ":two-way")
+                    n_sendfail[k] = n_sendfail.get(k, 0) + 1
+    ctx.cov["mux_failed_sends"] = n_sendfail
+    if not any(k.endswith(":oneway") for k in n_sendfail) or not any(k.endswith(":two-way") for k in n_sendfail):
+        raise vlib.Inconclusive("no request of the two-step histories had its write fail on the real pools: %r" % n_sendfail)
     ctx.cov["mux_deeper_layer_sampled"] = mux_sampled
     ctx.cov["mismatch_kinds"] = kinds
     ctx.cov["exhaustive"] = True      # all histories up to the stated depth are replayed; the deeper layer is a sample when capped
@@ -253,6 +310,13 @@ def run(ctx):
                        "(1 and 2 client indexes), the HTTP/2 pool and the binding pool (2 downstream connections, plus the operation 'downstream connection closes')") % (
                            depth, "6 of {0,1,2}^2" if q else "{0,1,2}^2", 4 if q else 5, len(deep_lines),
                            mdepth, mdepth + 1, "{0,2}" if q else "{0,1,2}")
+    ctx.cov["rule"] += ("; a request in the code's two steps (MuxPool SplitNew): lease = CheckAndInit + NewStream hands out a sender (the admission is taken, "
+                        "nothing is written), send = the caller writes the request (encodable or refused by the encoder), two-way and one-way, with "
+                        "every other operation of the history in between (remote close, undecodable input, go-away, pool Close, Shutdown, downstream close, "
+                        "another stream's completion or reset, a local reset of the leased stream itself): every history of length %d that leases a stream and sends a request and the "
+                        "histories of length %d with an operation between a lease and a send (VERIF_SEED sample of %d per pool when capped), %d histories; the "
+                        "connection's close has gone through every listener on the proxy side before the write, so the write really fails") % (
+                            sdepth, sdepth + 1, scap, n_split)
     # 5. the pooled connection while no request uses it: heartbeats, fail / idle close (KeepAlive.tla)
     keepalive_part.run_part(ctx, "C09")
     __import__("conn_part").run(ctx, "C09")     # 6. the connection object itself: close event exactly once, Write/Close races (spec/network/Connection.tla)
